@@ -28,6 +28,7 @@ type c21Req struct {
 	GapMs    int    `json:"gap_ms"`
 	Redirect string `json:"redirect"` // "", same, cross: the server redirects once to the same / the other scheme
 	Via      string `json:"via"` // client | host-tls | host-plain | lb
+	SchemeAs string `json:"scheme_spelling,omitempty"` // "" | upper | title : schemes are case-insensitive
 }
 
 type c21Plan struct {
@@ -38,6 +39,7 @@ type c21Plan struct {
 	MaxConns  int      `json:"max_conns,omitempty"`    // 0: default
 	WaitMs    int      `json:"max_conn_wait_timeout_ms,omitempty"`
 	SrvCloses bool     `json:"server_answers_connection_close,omitempty"`
+	CloseIdleMs []int  `json:"close_idle_connections_at_ms,omitempty"` // every client's CloseIdleConnections, during the (concurrent) traffic
 }
 
 // c21Delegate is the smallest custom RoundTripper: it hands everything to the default transport.
@@ -79,8 +81,13 @@ func scenC21(e *Env) func() {
 	n := e.Range(2, 8)
 	for i := 0; i < n; i++ {
 		scheme := Pick(e, "s", "p")
-		r := c21Req{ID: fmt.Sprintf("%s-%d", scheme, i), Host: Pick(e, "h1.test", "h1.test", "h2.test"), GapMs: Pick(e, 0, 0, 10, 2000, 130000), Redirect: Pick(e, "", "", "", "same", "cross"), Via: Pick(e, "client", "client", "client", "host-tls", "host-plain", "lb")}
+		r := c21Req{ID: fmt.Sprintf("%s-%d", scheme, i), Host: Pick(e, "h1.test", "h1.test", "h2.test"), GapMs: Pick(e, 0, 0, 10, 2000, 130000), Redirect: Pick(e, "", "", "", "same", "cross"), Via: Pick(e, "client", "client", "client", "host-tls", "host-plain", "lb"), SchemeAs: Pick(e, "", "", "", "upper", "title")}
 		p.Reqs = append(p.Reqs, r)
+	}
+	if p.Concurrent {
+		for i, n := 0, Pick(e, 0, 0, 1, 3); i < n; i++ {
+			p.CloseIdleMs = append(p.CloseIdleMs, Pick(e, 0, 1, 10, 2000, 2001))
+		}
 	}
 	e.Sample = p
 	return func() { c21Run(e, p) }
@@ -183,8 +190,11 @@ func c21Run(e *Env, p *c21Plan) {
 	wait := time.Duration(p.WaitMs) * time.Millisecond
 	cl := &fasthttp.Client{Dial: dial, TLSConfig: cliCfg, ReadTimeout: time.Minute, MaxIdleConnDuration: 30 * time.Second, MaxConnsPerHost: p.MaxConns, MaxConnWaitTimeout: wait}
 	hostClients := map[string]*fasthttp.HostClient{}
+	var hcMu sync.Mutex
 	getHC := func(host string, isTLS bool) *fasthttp.HostClient {
 		key := fmt.Sprint(host, isTLS)
+		hcMu.Lock()
+		defer hcMu.Unlock()
 		if hc := hostClients[key]; hc != nil {
 			return hc
 		}
@@ -205,6 +215,12 @@ func c21Run(e *Env, p *c21Plan) {
 		scheme := "http"
 		if https {
 			scheme = "https"
+		}
+		switch r.SchemeAs {
+		case "upper":
+			scheme = strings.ToUpper(scheme)
+		case "title":
+			scheme = strings.ToUpper(scheme[:1]) + scheme[1:]
 		}
 		url := fmt.Sprintf("%s://%s/x?id=%s", scheme, r.Host, r.ID)
 		req, resp := fasthttp.AcquireRequest(), fasthttp.AcquireResponse()
@@ -260,6 +276,22 @@ func c21Run(e *Env, p *c21Plan) {
 		for _, r := range p.Reqs {
 			r := r
 			fsx = append(fsx, func() { do(r) })
+		}
+		for _, at := range p.CloseIdleMs {
+			at := at
+			fsx = append(fsx, func() {
+				time.Sleep(time.Duration(at) * time.Millisecond)
+				cl.CloseIdleConnections()
+				hcMu.Lock()
+				var hcs []*fasthttp.HostClient
+				for _, k := range sortedKeys(hostClients) {
+					hcs = append(hcs, hostClients[k])
+				}
+				hcMu.Unlock()
+				for _, hc := range hcs {
+					hc.CloseIdleConnections()
+				}
+			})
 		}
 		if !WaitAll(3*time.Hour, "caller", fsx...) {
 			e.Violation("liveness/callers", "client calls did not return")
